@@ -14,7 +14,10 @@ CHECKS = {
             "entry/exit); a controller releases them in a generated order (integers and burst tokens) once a "
             "timing-free quiescence condition holds. Every schedule's result is compared with serial evaluation of an "
             "identical batch (costs, signed costs, states, objective calls per design, one SQLite row per design). "
-            "All release orders are enumerated for (2 tasks, 2 workers), (3, 2) and, in the thorough tier, (3, 3).",
+            "All release orders are enumerated for (2 tasks, 2 workers), (3, 2) and, in the thorough tier, (3, 3). "
+            "Further clauses: whole algorithm runs under generated release orders, a CPU-bound model under a declared "
+            "time_out, and a batch containing a design that cannot be evaluated (the failure must reach the caller as "
+            "in the serial run).",
             "Granularity = the gates the property names; finer interleavings only inside burst releases (OS-chosen, "
             "not reproducible); <= 2 transient failures per design.",
             "DESIGN.md section 5, C07"),
@@ -24,15 +27,20 @@ CHECKS = {
             "+-inf, numpy scalars, nested custom data, algorithm-style features (id lists given as objects, numpy "
             "gradients) and unicode metadata are compared, through a read-mode view and the raw table, with a model "
             "id -> last synchronised snapshot (bit-exact floats, one row per id); eleven algorithm/evaluator "
-            "combinations are run with a store and every recorded individual must have a row with its final data.",
+            "combinations are run with a store and every recorded individual must have a row with its final data. "
+            "Histories also contain in-place changes, write-mode reopen, rewrite mode, a file locked for the first "
+            "k write attempts, a pre-created empty file, designs in state IN_PROGRESS, another study's store opened "
+            "in the same session (ids must never be reused).",
             "NaN, string and dict feature values are not generated; SELECT order is not asserted.",
             "DESIGN.md section 5, C10"),
     "C11": ("fault_enumeration",
-            "crash-point injection in a writer subprocess (objective calls, every SQL statement/commit before+after, strace SIGKILL at every pwrite64, timed SIGKILL) + fresh reader process, TRY/ACK side-log oracle",
+            "crash-point injection in a writer subprocess (objective calls, every SQL statement/commit before+after, Python-level file operations, strace SIGKILL at every pwrite64, timed SIGKILL, a locked database; harness-owned clock, transient objective failures) + fresh reader process, TRY/ACK side-log oracle",
             "A writer subprocess running a serial batch, a 3-worker batch or an NSGA-II run on an SQLite store is "
             "killed without clean-up at enumerated crash points (A: each objective call, B: before/after each SQL "
             "statement and commit, C: each write syscall on the database/journal via strace fault injection, D: drawn "
-            "delays); a fresh process reopens the file through the read-mode view and every row must equal a version "
+            "delays, E: a synchronisation that finds the database locked once, F: before/after each Python-level "
+            "remove/rename/replace/truncate of the database files of a 1 MB store; A/B also with a harness-owned clock on "
+            "which a model evaluation takes 6 s or 700 s and with a transiently failing objective call); a fresh process reopens the file through the read-mode view and every row must equal a version "
             "the writer attempted, not older than the last acknowledged one, with every acknowledged id present and "
             "costs matching the vector. A-C are enumerated completely per scenario in the thorough tier.",
             "Process death only (synchronous=0, no power-loss claim); crash points start after the store constructor "
@@ -41,10 +49,10 @@ CHECKS = {
     "C15": ("exploration",
             "Hypothesis generated box points (uniform, corners, lattices, optimum neighbourhoods, constraint surface) + SciPy local search through the same oracle + dense 1-D/2-D scans + enumerated documented optima",
             "Every benchmark class x accepted dimension is evaluated on generated points given as Python floats and "
-            "numpy scalars (total, finite, one cost), at its documented optimum (value within 1e-3) and searched for a "
+            "numpy scalars or one float64 array (total, finite, one cost, the point unchanged by evaluate), at its documented optimum (value within 1e-3) and searched for a "
             "point better than the documented optimum in the declared direction by random points, local optimisers "
             "whose every visited point goes through the oracle, and dense scans of the 1-D and 2-D functions.",
-            "Clause B is a global-optimisation claim: search can miss a narrow basin; tolerance 1e-3; dimensions <= 10.",
+            "Clause B is a global-optimisation claim: search can miss a narrow basin; tolerance 1e-3; dimensions <= 25 (the value at the documented optimum is enumerated up to d = 100).",
             "DESIGN.md section 5, C15"),
     "C03": ("exploration",
             "Hypothesis generated fronts / ranked populations / tournaments vs crowding reference and truncation predicates",
